@@ -587,7 +587,66 @@ func Select(a, i *Term) *Term {
 		}
 		break
 	}
+	// lookup in a constant table (e.g. a [256]byte popcount table) with a
+	// byte-sized symbolic index: a multiplexer tree bit-blasts far better than
+	// a 256-deep store chain
+	if i.Op == "zext" && i.Args[0].S.W == 8 {
+		if tab := constTable(a); tab != nil {
+			return muxTable(tab, i.Args[0], 7, 0)
+		}
+	}
 	return mk("select", BV(8), 0, "", a, i)
+}
+
+var constTableMemo = map[int][]uint8{}
+
+// constTable returns the first 256 entries of a when a is a store chain of
+// constants over a constant array, nil otherwise.
+func constTable(a *Term) []uint8 {
+	if t, ok := constTableMemo[a.id]; ok {
+		return t
+	}
+	tab := make([]uint8, 256)
+	set := make([]bool, 256)
+	x := a
+	n := 0
+	for x.Op == "store" {
+		idx, v := x.Args[1], x.Args[2]
+		if !idx.IsConst() || !v.IsConst() {
+			constTableMemo[a.id] = nil
+			return nil
+		}
+		if idx.Val < 256 && !set[idx.Val] {
+			tab[idx.Val] = uint8(v.Val)
+			set[idx.Val] = true
+		}
+		x = x.Args[0]
+		n++
+	}
+	if x.Op != "constarr" || !x.Args[0].IsConst() || n < 16 {
+		constTableMemo[a.id] = nil
+		return nil
+	}
+	for k := range tab {
+		if !set[k] {
+			tab[k] = uint8(x.Args[0].Val)
+		}
+	}
+	constTableMemo[a.id] = tab
+	return tab
+}
+
+// muxTable selects tab[base + idx[bit..0]] with a balanced ite tree.
+func muxTable(tab []uint8, idx *Term, bit int, base int) *Term {
+	if bit < 0 {
+		return BVC(8, uint64(tab[base]))
+	}
+	hi := muxTable(tab, idx, bit-1, base+(1<<uint(bit)))
+	lo := muxTable(tab, idx, bit-1, base)
+	if hi == lo {
+		return hi
+	}
+	return Ite(Eq(Extract(bit, bit, idx), BVC(1, 1)), hi, lo)
 }
 
 func Store(a, i, v *Term) *Term {
